@@ -106,7 +106,11 @@ def run(prop, tier, seed, results, violations, undecided, infra):
                                   'bounds': REG.harness_info(h).get('bounds'), 'unwinding_assertions': True,
                                   'role': REG.harness_info(h).get('role', 'bounded stand-in / conformance')})
             if r.get('status') not in ('pass', 'fail'):
-                infra.append('kani harness %s did not complete (%s)' % (h, r.get('status')))
+                # a bounded stand-in that ran out of time or memory decides nothing either way: recorded in the evidence
+                # (coverage.kani[].status, coverage.kani_incomplete) and reported, but it is not a verdict of the
+                # deductive check and does not change the exit code
+                extra.setdefault('kani_incomplete', []).append({'harness': h, 'status': r.get('status')})
+                print('NOTE: kani harness %s did not complete (%s); it decides nothing in this run' % (h, r.get('status')), flush=True)
         extra['kani_cmd'] = info['cmd']
         extra['kani_wall_s'] = info['wall_s']
     # ---- 3. harness failures are violations with a concrete input
